@@ -442,7 +442,7 @@ def near_duplicate(rng, text, selfies):
     pre, iso, el, chi, h, ch, cls = (m.group(i) or "" for i in range(1, 8))
     what = rng.choice(("iso", "iso", "h", "chi", "charge", "class", "prefix"))
     if what == "iso":
-        iso = rng.choice(("13", "14", "2", "1", "")) if iso else rng.choice(("13", "14", "2"))
+        iso = rng.choice(("13", "14", "2", "1", "0", "013", "")) if iso else rng.choice(("13", "14", "2", "0", "00"))
     elif what == "h":
         if selfies:
             h = rng.choice(("H1", "H2", "H3", "")) if h else rng.choice(("H1", "H2"))
